@@ -23,6 +23,9 @@ PROPS = {
                 partial='proved: Spec.C07.bounds for every request of the cycle, and no-shrink when max-idle-time = 0; keepsNeeded (scale-down never removes a needed shard) and no-shrink under need-space are monitored on implementation and model outcomes, theorem pending'),
     'C08': dict(engine='coord', module='Kvass.Props.C08', assumptions=COORD_ASSUME,
                 partial='proved: leftAlone, noNeedlessPush, noUpdates for every schedule; noSecondAssign and dstInSync (destination of a move is in sync) are monitored on implementation and model outcomes, theorem pending'),
+    'C09': dict(engine='store', module='Kvass.Props.C09', timeout=3000,
+                assumptions=['json decoding inverts encoding (hypothesis hde of the theorems; exercised with escaping-heavy values)', 'rename(2) is atomic and a process killed inside write(2) leaves a prefix; RLIMIT_FSIZE stands in for the kill / disk-full point', 'no power-loss model (no fsync reasoning)'],
+                partial='none for the stated clauses at the model level; byte contents are abstract (enc/dec parameters)'),
     'C10': dict(engine='sidecar', module='Kvass.Props.C10',
                 assumptions=['update requests carry each hash once (what the coordinator sends); the clock is injected through the verif hook VerifSetTimeNow'],
                 partial='update / scrape / restart step theorems hold from every state satisfying Cons and IdleInv, which are proved for every operation history; restart is proved at model level (Prop), the Bool monitor restartOk is evaluated on the real sidecar'),
@@ -37,6 +40,7 @@ PROPS = {
 }
 
 LEVEL_TEXT = {
+    'C09': 'Machine-checked theorems (Lean 4): the file-system protocol extracted from saveTargets on every run is write-temp-then-rename, and for that protocol every crash state (any byte offset, any earlier leftover temp file) loads as the previous or the new assignment; round trip. The real save is then cut at a sweep of byte offsets in a child process (SIGXFSZ kill and EFBIG) and the directory + a fresh Load are compared with the model.',
     'C10': 'Machine-checked theorems (Lean 4) by induction over every operation history (updates, scrapes, restarts): consistency and idle invariants for all reachable states, and step theorems giving exactly-the-requested keys, requested states, retained statistics, counter restart exactly on normal->in-transfer, idle-since semantics. Decision expressions regenerated from targets.go/service.go/status.go; the model is validated against the real TargetsManager+Service+Proxy on random histories every run.',
     'C14': 'Machine-checked theorems (Lean 4): sample counting (total, kept, per-metric sums) for every payload; series = integer mean of the last <=3 successful scrapes and total = last successful, for every result sequence; shard load = sums with the head-series floor. Validated against the real proxy/parser/relabel engine with payloads of known counts.',
     'C18': 'Machine-checked theorems (Lean 4) for all current/requested counts, template numbers and flags (Int/Nat, unbounded): a claim is deleted iff deletion is on and requested <= ordinal < current; exact replica count; no-op when unchanged; listing in ordinal order for every pod order. Loop bounds, conditions and name formats are regenerated from shardmanager.go on every run; the model is compared with the real package on a fake clientset exhaustively over [0,6]^2.',
@@ -51,13 +55,14 @@ LEVEL_TEXT = {
 NOT_APPLICABLE = {
     'C02': 'check under construction', 'C03': 'check under construction', 
     'C06': 'check under construction', 
-    'C09': 'check under construction', 'C11': 'check under construction',
+    'C11': 'check under construction',
     'C12': 'check under construction', 'C13': 'check under construction', 'C14': 'check under construction',
     'C15': 'check under construction', 'C16': 'check under construction', 'C17': 'check under construction',
     'C19': 'check under construction', 'C20': 'check under construction',
 }
 
 ENGINES = [
+    {'name': 'store', 'path': 'harness/cmd/kvh/store.go', 'kind_free_text': 'child process running the real UpdateTargets under RLIMIT_FSIZE=N (kill and EFBIG), then a fresh TargetsManager.Load(); directory state matched against the crash states of the extracted save protocol'},
     {'name': 'sidecar', 'path': 'harness/cmd/kvh/sidecar.go', 'kind_free_text': 'real TargetsManager + Service (HTTP handlers) + Proxy with a scripted target transport, driven by random operation histories; every step trace-validated against Sidecar.step and the relational specs'},
     {'name': 'k8s', 'path': 'harness/cmd/kvh/k8s.go', 'kind_free_text': 'real pkg/shard/kubernetes on a client-go fake clientset; scale cases exhaustive over small counts, shard listings random permutations'},
 ]
